@@ -9,6 +9,10 @@ Property registry: id -> module implementing
 import importlib
 
 MODULES = {
+    "C01": "vlib.props.c01",
+    "C02": "vlib.props.c02",
+    "C03": "vlib.props.c03",
+    "C04": "vlib.props.c04",
     "C05": "vlib.props.c05",
     "C06": "vlib.props.c06",
     "C07": "vlib.props.c07",
